@@ -446,3 +446,10 @@ Definition parse_tokens (ts : list token) (hs : list hbody) : pres bytes :=
       | t :: _ => PErr (Some (tidx t))
       end
   end.
+
+(** the commands of a command substitution (parsed by a nested parser as the list of a subshell) *)
+Definition parse_subst (ts : list token) (hs : list hbody) : option bytes :=
+  match p_clist (budget ts) ts hs with
+  | POk l [] _ => Some (fmt_cmds l)
+  | _ => None
+  end.
